@@ -29,6 +29,8 @@ pub struct Profile {
     /// PKE encryptions / decryptions and header generations / decryptions inside the history
     pub w_pke: u32,
     pub w_hdr: u32,
+    /// raise the number of tracers of the master key in mid-history (keys issued before are then of another level)
+    pub w_relevel: u32,
     /// percentage of histories whose master key gets more tracers than `setup` creates
     pub tracers_pct: u32,
     /// percentage of deliberately malformed arguments
@@ -65,6 +67,7 @@ impl Profile {
             w_forge: 0,
             w_pke: 0,
             w_hdr: 0,
+            w_relevel: 0,
             tracers_pct: 0,
             malformed_pct: 10,
             hybrid_pct: 30,
@@ -98,6 +101,8 @@ pub struct HistGen {
     next_u: usize,
     next_e: usize,
     next_x: usize,
+    relevels: usize,
+    cur_tracers: usize,
     /// per header: the authentication data it was generated with
     hdr_ads: Vec<String>,
     next_m: usize,
@@ -125,6 +130,8 @@ impl HistGen {
             next_u: 0,
             next_e: 0,
             next_x: 0,
+            relevels: 0,
+            cur_tracers: 2,
             hdr_ads: vec![],
             next_m: 1,
             snapshots: vec![],
@@ -553,6 +560,17 @@ impl HistGen {
             }
         }
     }
+    /// more tracers from now on (at most twice per history), then a fresh public key
+    pub fn op_relevel(&mut self) {
+        if self.relevels >= 2 {
+            return;
+        }
+        self.relevels += 1;
+        self.cur_tracers += 1 + self.rng.below(2);
+        let n = self.cur_tracers;
+        self.emit(format!("set_tracers M0 {n}"));
+        self.op_update();
+    }
     /// every key against every PKE ciphertext and every header
     pub fn final_dem_matrix(&mut self) {
         for u in 0..self.next_u {
@@ -660,6 +678,7 @@ impl HistGen {
         // sometimes a higher tracing level than the API creates (crafted through the wire form)
         if self.p.tracers_pct > 0 && self.rng.chance(self.p.tracers_pct, 100) {
             let n = *self.rng.pick(&[3usize, 3, 4, 6]);
+            self.cur_tracers = n;
             self.emit(format!("set_tracers M0 {n}"));
         }
         let nd = 1 + self.rng.below(self.p.max_dims);
@@ -705,7 +724,7 @@ impl HistGen {
         let p = self.p.clone();
         let ws = [
             p.w_edit, p.w_update, p.w_rekey, p.w_prune, p.w_keygen, p.w_refresh, p.w_encaps, p.w_recaps,
-            p.w_roundtrip, p.w_rollback, p.w_mpk, p.w_ser, p.w_trace, p.w_forge, p.w_pke, p.w_hdr,
+            p.w_roundtrip, p.w_rollback, p.w_mpk, p.w_ser, p.w_trace, p.w_forge, p.w_pke, p.w_hdr, p.w_relevel,
         ];
         let tot: u32 = ws.iter().sum();
         let mut r = (self.rng.next() % tot as u64) as u32;
@@ -728,7 +747,8 @@ impl HistGen {
                     12 => self.op_trace(),
                     13 => self.op_forge(),
                     14 => self.op_pke(),
-                    _ => self.op_hdr(),
+                    15 => self.op_hdr(),
+                    _ => self.op_relevel(),
                 }
                 if self.p.matrix_often && self.lines.len() > before && matches!(k, 5 | 6 | 7) {
                     self.emit("matrix".into());
